@@ -100,6 +100,15 @@ func c32History(c *fw.Ctx, run int64) {
 		}
 		return cand[r.Intn(len(cand))], true
 	}
+	// a request without an answer may or may not have taken effect: the model cannot follow, the history ends there
+	unanswered := ""
+	ask := func(s *c32Sess, req ua.Request, tok *ua.NodeID, d time.Duration) (interface{}, error) {
+		v, err := s.ch.Request(req, tok, d)
+		if err != nil && v == nil {
+			unanswered = fmt.Sprintf("%T: %v", req, err)
+		}
+		return v, err
+	}
 	steps := c.Pick(60, 250)
 	for step := 0; step < steps; step++ {
 		si := r.Intn(nsess)
@@ -113,7 +122,7 @@ func c32History(c *fw.Ctx, run int64) {
 		case x < 30:
 			op.Op = "CreateSubscription"
 			c.Journal(run*10000+int64(step), op)
-			v, err := s.ch.Request(&ua.CreateSubscriptionRequest{RequestedPublishingInterval: 100, RequestedLifetimeCount: 100000, RequestedMaxKeepAliveCount: 1000, PublishingEnabled: true}, s.tok, 3*time.Second)
+			v, err := ask(s, &ua.CreateSubscriptionRequest{RequestedPublishingInterval: 100, RequestedLifetimeCount: 100000, RequestedMaxKeepAliveCount: 1000, PublishingEnabled: true}, s.tok, 3*time.Second)
 			resp, ok := v.(*ua.CreateSubscriptionResponse)
 			if err != nil || !ok || resp.ResponseHeader.ServiceResult != ua.StatusOK {
 				op.Result = fmt.Sprintf("%T %v", v, err)
@@ -142,7 +151,7 @@ func c32History(c *fw.Ctx, run int64) {
 			}
 			op.IDs = ids
 			c.Journal(run*10000+int64(step), op)
-			v, err := s.ch.Request(&ua.DeleteSubscriptionsRequest{SubscriptionIDs: ids}, s.tok, 3*time.Second)
+			v, err := ask(s, &ua.DeleteSubscriptionsRequest{SubscriptionIDs: ids}, s.tok, 3*time.Second)
 			resp, ok := v.(*ua.DeleteSubscriptionsResponse)
 			if err != nil || !ok || len(resp.Results) != len(ids) {
 				op.Result = fmt.Sprintf("%T %v", v, err)
@@ -198,7 +207,7 @@ func c32History(c *fw.Ctx, run int64) {
 					MonitoringMode: ua.MonitoringModeReporting, RequestedParameters: &ua.MonitoringParameters{ClientHandle: uint32(step*10 + k), SamplingInterval: 100, QueueSize: 1, Filter: ua.NewExtensionObject(nil)}})
 			}
 			before := srvItems()
-			v, err := s.ch.Request(&ua.CreateMonitoredItemsRequest{SubscriptionID: sub, TimestampsToReturn: ua.TimestampsToReturnBoth, ItemsToCreate: its}, s.tok, 3*time.Second)
+			v, err := ask(s, &ua.CreateMonitoredItemsRequest{SubscriptionID: sub, TimestampsToReturn: ua.TimestampsToReturnBoth, ItemsToCreate: its}, s.tok, 3*time.Second)
 			resp, ok := v.(*ua.CreateMonitoredItemsResponse)
 			if foreign {
 				time.Sleep(20 * time.Millisecond)
@@ -248,7 +257,7 @@ func c32History(c *fw.Ctx, run int64) {
 				op.Op += "(foreign item)"
 			}
 			c.Journal(run*10000+int64(step), op)
-			v, err := s.ch.Request(&ua.DeleteMonitoredItemsRequest{SubscriptionID: ownSub, MonitoredItemIDs: []uint32{it, 800000 + uint32(r.Intn(50))}}, s.tok, 3*time.Second)
+			v, err := ask(s, &ua.DeleteMonitoredItemsRequest{SubscriptionID: ownSub, MonitoredItemIDs: []uint32{it, 800000 + uint32(r.Intn(50))}}, s.tok, 3*time.Second)
 			resp, ok := v.(*ua.DeleteMonitoredItemsResponse)
 			if err != nil || !ok || len(resp.Results) != 2 {
 				op.Result = fmt.Sprintf("%T %v", v, err)
@@ -294,7 +303,7 @@ func c32History(c *fw.Ctx, run int64) {
 			if own, ok := pick(subOwner, si, false); ok && foreign {
 				sub = own
 			}
-			v, err := s.ch.Request(&ua.SetMonitoringModeRequest{SubscriptionID: sub, MonitoringMode: mode, MonitoredItemIDs: []uint32{it, 800000}}, s.tok, 3*time.Second)
+			v, err := ask(s, &ua.SetMonitoringModeRequest{SubscriptionID: sub, MonitoringMode: mode, MonitoredItemIDs: []uint32{it, 800000}}, s.tok, 3*time.Second)
 			resp, ok := v.(*ua.SetMonitoringModeResponse)
 			if err != nil || !ok || len(resp.Results) != 2 {
 				op.Result = fmt.Sprintf("%T %v", v, err)
@@ -316,6 +325,10 @@ func c32History(c *fw.Ctx, run int64) {
 		c.Eval(1)
 		c.Class("op:"+op.Op, 1)
 		hist = append(hist, fmt.Sprintf("s%d %s %v -> %s", si, op.Op, op.IDs, op.Result))
+		if unanswered != "" {
+			c.Inconclusive("a request stayed without an answer (" + classOf(unanswered) + "), the history is cut short")
+			break
+		}
 		if len(hist) > 10 {
 			hist = hist[1:]
 		}
